@@ -89,13 +89,37 @@ def _alarm(signum, frame):
     raise _Timeout()
 
 
+def _graph(nodes, links):
+    G = nx.Graph()
+    G.add_nodes_from(nodes)
+    G.add_edges_from(links)
+    return G
+
+
+def _ss(sets):
+    return sorted((sorted(x, key=repr) for x in sets), key=repr)
+
+
 def all_graphs(N):
+    """Every graph on N vertices, each in several *presentations*: sorted integer labels added in sorted order (what
+    networkx's own generators produce), reversed vertex / link / endpoint order, string labels added out of lexical
+    order, labels of mixed types, tuple labels (as in networkx grid graphs), and - up to 4 links - every link insertion order with alternating endpoint order.
+    Cliques do not depend on the presentation; adjacency iteration order does."""
     pairs = list(itertools.combinations(range(N), 2))
+    names = ["c", "a", "e", "b", "d", "f"][:N]
+    mixed = [0, "a", 2, "b", 4, "c"][:N]
     for mask in range(1 << len(pairs)):
-        G = nx.Graph()
-        G.add_nodes_from(range(N))
-        G.add_edges_from(pairs[i] for i in range(len(pairs)) if mask >> i & 1)
-        yield mask, G
+        sel = [pairs[i] for i in range(len(pairs)) if mask >> i & 1]
+        yield (mask, "sorted"), _graph(range(N), sel)
+        yield (mask, "reversed"), _graph(reversed(range(N)), [(b, a) for a, b in reversed(sel)])
+        yield (mask, "strings"), _graph(names, [(names[b], names[a]) for a, b in sel[1:] + sel[:1]])
+        yield (mask, "mixed"), _graph(mixed, [(mixed[b], mixed[a]) if (a + b) % 2 else (mixed[a], mixed[b]) for a, b in sel])
+        tup = [(i // 2, i % 2) for i in range(N)]  # grid-style tuple labels
+        yield (mask, "tuples"), _graph(tup, [(tup[a], tup[b]) for a, b in sel])
+        if 2 <= len(sel) <= 4:
+            for k, perm in enumerate(itertools.permutations(sel)):
+                if k:
+                    yield (mask, f"order{k}"), _graph(range(N), [(a, b) if i % 2 else (b, a) for i, (a, b) in enumerate(perm)])
 
 
 def cliques_upto(G, kmax):
@@ -216,19 +240,29 @@ def task_deterministic(arg):
             for mask, G in all_graphs(N):
                 for mo in (1, 2, 3, None):
                     n += 1
-                    S = xgi.flag_complex(G, max_order=mo)
+                    try:
+                        S = xgi.flag_complex(G, max_order=mo)
+                    except Exception as e:  # noqa: BLE001
+                        bad(f"flag_complex(G, max_order={mo}) on graph {list(G.edges)} [{mask[1]}] raised {type(e).__name__}: {e}",
+                            {"gen": "flag_complex", "N": N, "mask": mask[0], "presentation": mask[1], "max_order": mo})
+                        continue
                     got = {e for e in edges_of(S) if len(e) >= 2}
                     want = cliques_upto(G, None if mo is None else mo + 1)
                     if got != want or set(S.nodes) != set(G.nodes) or len(edges_of(S)) != len(set(edges_of(S))) or not closed(got):
-                        bad(f"flag_complex(G, max_order={mo}) on graph {sorted(G.edges)}: simplices {sorted(map(sorted, got))}, "
-                            f"cliques {sorted(map(sorted, want))}", {"gen": "flag_complex", "N": N, "mask": mask, "max_order": mo})
+                        bad(f"flag_complex(G, max_order={mo}) on graph {list(G.edges)} [{mask[1]}]: simplices {_ss(got)}, "
+                            f"cliques {_ss(want)}", {"gen": "flag_complex", "N": N, "mask": mask[0], "presentation": mask[1], "max_order": mo})
                 n += 1
-                S = xgi.flag_complex_d2(G)
+                try:
+                    S = xgi.flag_complex_d2(G)
+                except Exception as e:  # noqa: BLE001
+                    bad(f"flag_complex_d2 on graph {list(G.edges)} [{mask[1]}] raised {type(e).__name__}: {e}",
+                        {"gen": "flag_complex_d2", "N": N, "mask": mask[0], "presentation": mask[1]})
+                    continue
                 got = {e for e in edges_of(S) if len(e) >= 2}
                 want = cliques_upto(G, 3)
                 if got != want or set(S.nodes) != set(G.nodes):
-                    bad(f"flag_complex_d2 on graph {sorted(G.edges)}: simplices {sorted(map(sorted, got))}, cliques up to "
-                        f"triangles {sorted(map(sorted, want))}", {"gen": "flag_complex_d2", "N": N, "mask": mask})
+                    bad(f"flag_complex_d2 on graph {list(G.edges)} [{mask[1]}]: simplices {_ss(got)}, cliques up to "
+                        f"triangles {_ss(want)}", {"gen": "flag_complex_d2", "N": N, "mask": mask[0], "presentation": mask[1]})
     return {"n": n, "viols": viols}
 
 
